@@ -509,4 +509,560 @@ theorem finish_idle (c : Cfg) (ops : List Op) :
       | none => rfl
       | some j => exact absurd hruns ((q3 hm).2 (by simp [hp]) (hsd.2 (by simp [hp])))
 
+
+/-! ### every accepted put is pending or has exactly one result -/
+
+def evPut : Ev → Option Job
+  | .put j => some j
+  | _ => none
+
+def evRes : Ev → Option Job
+  | .succ j => some j
+  | .err j => some j
+  | .canc j => some j
+  | _ => none
+
+def putJobs (log : List (Nat × Ev)) : List Job := log.filterMap (fun e => evPut e.2)
+def resJobs (log : List (Nat × Ev)) : List Job := log.filterMap (fun e => evRes e.2)
+
+/-- accepted and still owed a result: queued, or its coroutine is running, or stop_data waiting in stop_async -/
+def pendJobs (s : State) : List Job :=
+  s.queue ++ ((s.runs.filter (·.coro)).map (·.job) ++ s.sdPending.toList)
+
+def Balanced (s : State) : Prop :=
+  ∀ x, (putJobs s.log).count x = (resJobs s.log).count x + (pendJobs s).count x
+
+@[simp] theorem putJobs_cons (t : Nat) (e : Ev) (l : List (Nat × Ev)) :
+    putJobs ((t, e) :: l) = (evPut e).toList ++ putJobs l := by
+  simp only [putJobs, List.filterMap_cons]; cases evPut e <;> simp
+@[simp] theorem resJobs_cons (t : Nat) (e : Ev) (l : List (Nat × Ev)) :
+    resJobs ((t, e) :: l) = (evRes e).toList ++ resJobs l := by
+  simp only [resJobs, List.filterMap_cons]; cases evRes e <;> simp
+
+theorem discards_put (s : State) (j : Job) (q : List Job) :
+    putJobs (discards s j q).log = putJobs s.log := by
+  induction q generalizing s j with
+  | nil => rfl
+  | cons k q ih => simp [discards, ih, evPut]
+
+theorem discards_res (s : State) (j : Job) (q : List Job) (x : Job) :
+    (resJobs (discards s j q).log).count x + [lastJob j q].count x
+      = (resJobs s.log).count x + (j :: q).count x := by
+  induction q generalizing s j with
+  | nil => simp [discards, lastJob]
+  | cons k q ih =>
+    have := ih (emit s (.canc j)) k
+    simp [discards, lastJob, evRes, List.count_cons] at this ⊢
+    omega
+
+theorem startStopData_balanced (s : State) (h : Balanced s) : Balanced (startStopData s) := by
+  unfold startStopData
+  split
+  · next j hj =>
+    split
+    · intro x; have := h x
+      simp [pendJobs, hj, evPut, evRes, List.filter_append, List.count_cons] at this ⊢
+      omega
+    · exact h
+  · exact h
+
+theorem startAll_balanced (s : State) (q : List Job) (hq : s.queue = [])
+    (h : ∀ x, (putJobs s.log).count x = (resJobs s.log).count x + (pendJobs s).count x + q.count x) :
+    Balanced (startAll s q) := by
+  induction q generalizing s with
+  | nil => intro x; simpa [startAll] using h x
+  | cons j q ih =>
+    apply ih
+    · simpa using hq
+    · intro x; have := h x
+      simp [pendJobs, hq, evPut, evRes, List.filter_append, List.count_cons] at this ⊢
+      omega
+
+theorem settle_balanced (c : Cfg) (s : State) (h : Balanced s) : Balanced (settle c s) := by
+  apply settle_cases
+  · exact h
+  · intro _ j q hr hq x; have := h x
+    simp [pendJobs, hr, hq, evPut, evRes, List.count_cons] at this ⊢
+    omega
+  · intro _ j q hr hq x; have := h x
+    have hd := discards_res { s with queue := [] } j q x
+    simp [pendJobs, hr, hq, evPut, evRes, List.count_cons, discards_put] at this hd ⊢
+    omega
+  · intro _ j q r rest hq hr hc x; have := h x
+    simp [pendJobs, cancelCur, hr, hq, hc, evPut, evRes, List.count_cons] at this ⊢
+    omega
+  · intro _
+    apply startStopData_balanced
+    apply startAll_balanced _ _ rfl
+    intro x; have := h x
+    simp [pendJobs, List.count_append] at this ⊢
+    omega
+
+theorem finishRun_balanced (c : Cfg) (s : State) (a b : List Run) (r : Run)
+    (hrs : s.runs = a ++ r :: b) (hc : r.coro = false) (h : Balanced s) :
+    Balanced (finishRun c s a b) := by
+  apply settle_balanced
+  intro x; have := h x
+  simp [pendJobs, hrs, hc, evPut, evRes, List.filter_append] at this ⊢
+  omega
+
+theorem fire_balanced (c : Cfg) (s : State) (t : Nat) (h : Balanced s) : Balanced (fire c s t) := by
+  apply fire_cases
+  · intro _; exact h
+  · intro a r b hrs _ hc _ x; have := h x
+    cases hf : r.job.data.fail <;>
+    · simp [pendJobs, afterCoro, hrs, hc, hf, evPut, evRes, List.filter_append, List.count_cons] at this ⊢
+      omega
+  · intro a r b hrs _ hc _
+    apply settle_balanced
+    intro x; have := h x
+    cases hf : r.job.data.fail <;>
+    · simp [pendJobs, afterCoro, hrs, hc, hf, evPut, evRes, List.filter_append, List.count_cons] at this ⊢
+      omega
+  · intro a r b hrs _ hc
+    exact finishRun_balanced c _ a b r (by simpa using hrs) hc (by simpa [Balanced, pendJobs] using h)
+
+theorem accept_balanced (s : State) (x : Item) (h : Balanced s) : Balanced (accept s x) := by
+  intro y; have := h y
+  simp [pendJobs, accept, evPut, evRes, List.count_cons] at this ⊢
+  omega
+
+theorem doStop_balanced (c : Cfg) (s : State) (h : Balanced s) (hsd : SdInv c s) (hst : s.stopped = false) :
+    Balanced (doStop c s) := by
+  unfold doStop
+  rw [if_neg (by simp [hst])]
+  split
+  · simpa [Balanced, pendJobs] using h
+  · next d _ =>
+    split
+    · have hnone : s.sdPending = none := by
+        cases hp : s.sdPending with
+        | none => rfl
+        | some j => have := hsd.2 (by simp [hp]); simp [hst] at this
+      intro y; have := h y
+      simp [pendJobs, evPut, evRes, hnone, List.count_cons] at this ⊢
+      omega
+    · have := accept_balanced s d h
+      simpa [Balanced, pendJobs] using this
+
+
+theorem run_balanced (c : Cfg) (ops : List Op) : Balanced (run c ops) := by
+  have := run_induction c (fun s => Balanced s ∧ SdInv c s) ⟨by simp [Balanced, putJobs, resJobs, pendJobs], by simp [SdInv]⟩
+    (fun s h => ⟨settle_balanced c s h.1, settle_sdInv c s h.2⟩)
+    (fun s t h => ⟨fire_balanced c s t h.1, fire_sdInv c s t h.2⟩)
+    (fun _ _ h => h)
+    (fun s x h _ => ⟨accept_balanced s x h.1, by simpa [SdInv, accept] using h.2⟩)
+    (fun s h => by
+      refine ⟨?_, doStop_sdInv c s h.2⟩
+      cases hst : s.stopped with
+      | true => simp [doStop, hst]; exact h.1
+      | false => exact doStop_balanced c s h.1 h.2 hst) ops
+  exact this.1
+
+/-! ### the controller and the timers accept nothing: `put` markers and `nacc` change only in accept/stop -/
+
+theorem discards_log_put (s : State) (j : Job) (q : List Job) : putJobs (discards s j q).log = putJobs s.log :=
+  discards_put s j q
+
+theorem startAll_put (s : State) (q : List Job) : putJobs (startAll s q).log = putJobs s.log := by
+  induction q generalizing s with
+  | nil => rfl
+  | cons j q ih => simp [startAll, ih, evPut]
+
+theorem settle_put (c : Cfg) (s : State) :
+    putJobs (settle c s).log = putJobs s.log ∧ (settle c s).nacc = s.nacc := by
+  apply settle_cases c s (fun s' => putJobs s'.log = putJobs s.log ∧ s'.nacc = s.nacc)
+  · exact ⟨rfl, rfl⟩
+  · intros; simp [evPut]
+  · intros; simp [evPut, discards_put]
+  · intros; simp [cancelCur, evPut]
+  · intro _
+    unfold startStopData
+    split
+    · split
+      · simp [evPut, startAll_put]
+      · simp [startAll_put]
+    · simp [startAll_put]
+
+theorem fire_put (c : Cfg) (s : State) (t : Nat) :
+    putJobs (fire c s t).log = putJobs s.log ∧ (fire c s t).nacc = s.nacc := by
+  apply fire_cases c s t (fun s' => putJobs s'.log = putJobs s.log ∧ s'.nacc = s.nacc)
+  · intro _; exact ⟨rfl, rfl⟩
+  · intro a r b _ _ _ _; cases hf : r.job.data.fail <;> simp [afterCoro, evPut, hf]
+  · intro a r b _ _ _ _
+    have := settle_put c (countDown { afterCoro s t r with runs := a ++ b })
+    unfold finishRun
+    rw [this.1, this.2]
+    cases hf : r.job.data.fail <;> simp [afterCoro, evPut, hf]
+  · intro a r b _ _ _
+    have := settle_put c (countDown { s with now := max s.now t, runs := a ++ b })
+    unfold finishRun
+    rw [this.1, this.2]
+    simp [evPut]
+
+/-- accepted puts are numbered consecutively: each `put` marker occurs once, with a number below `nacc` -/
+def UniqInv (s : State) : Prop :=
+  (∀ x ∈ putJobs s.log, x.seq < s.nacc) ∧ ∀ x, (putJobs s.log).count x ≤ 1
+
+theorem uniq_add (s s' : State) (d : Item) (h : UniqInv s)
+    (hp : putJobs s'.log = ⟨s.nacc, d⟩ :: putJobs s.log) (hn : s'.nacc = s.nacc + 1) : UniqInv s' := by
+  obtain ⟨h1, h2⟩ := h
+  refine ⟨?_, ?_⟩
+  · intro x hx; rw [hp] at hx; rw [hn]
+    cases hx with
+    | head => simp
+    | tail _ hx => have := h1 x hx; omega
+  · intro x; rw [hp, List.count_cons]
+    split
+    · next heq =>
+      have : (putJobs s.log).count x = 0 := by
+        apply List.count_eq_zero_of_not_mem
+        intro hx; have := h1 x hx
+        have hx2 : x = ⟨s.nacc, d⟩ := by have := eq_of_beq heq; exact this.symm
+        rw [hx2] at this; simp at this
+      omega
+    · exact h2 x
+
+theorem run_uniq (c : Cfg) (ops : List Op) : UniqInv (run c ops) := by
+  apply run_induction c UniqInv
+  · simp [UniqInv, putJobs]
+  · intro s h; have := settle_put c s; simpa [UniqInv, this.1, this.2] using h
+  · intro s t h; have := fire_put c s t; simpa [UniqInv, this.1, this.2] using h
+  · intro s t h; exact h
+  · intro s x h _; exact uniq_add s _ x h (by simp [accept, evPut]) rfl
+  · intro s h
+    unfold doStop
+    split
+    · exact h
+    · split
+      · exact h
+      · next d _ =>
+        split
+        · exact uniq_add s _ d h (by simp [evPut]) rfl
+        · exact uniq_add s _ d h (by simp [accept, evPut]) rfl
+
+theorem mem_putJobs {log : List (Nat × Ev)} {t : Nat} {j : Job} (h : (t, Ev.put j) ∈ log) : j ∈ putJobs log := by
+  simp only [putJobs, List.mem_filterMap]
+  exact ⟨(t, .put j), h, rfl⟩
+
+
+/-! ### wait mode: runs start in arrival order -/
+
+def evStart : Ev → Option Job
+  | .start j => some j
+  | _ => none
+
+def startJobs (log : List (Nat × Ev)) : List Job := log.filterMap (fun e => evStart e.2)
+
+@[simp] theorem startJobs_cons (t : Nat) (e : Ev) (l : List (Nat × Ev)) :
+    startJobs ((t, e) :: l) = (evStart e).toList ++ startJobs l := by
+  simp only [startJobs, List.filterMap_cons]; cases evStart e <;> simp
+
+/-- newest first: the puts are the queued ones followed by the started ones -/
+def Fifo (c : Cfg) (s : State) : Prop :=
+  c.mode = Mode.wait → putJobs s.log = s.queue.reverse ++ startJobs s.log
+
+theorem settle_fifo (c : Cfg) (s : State) (h : Fifo c s) : Fifo c (settle c s) := by
+  apply settle_cases
+  · exact h
+  · intro hm j q hr hq _; have := h hm
+    simp [hq, evPut, evStart] at this ⊢; exact this
+  · intro hm _ _ _ _ hw; rw [hm] at hw; cases hw
+  · intro hm _ _ _ _ _ _ _ hw; rw [hm] at hw; cases hw
+  · intro hm hw; rw [hm] at hw; cases hw
+
+theorem fire_fifo (c : Cfg) (s : State) (t : Nat) (h : Fifo c s) : Fifo c (fire c s t) := by
+  apply fire_cases
+  · intro _; exact h
+  · intro a r b _ _ _ _ hm; have := h hm
+    cases hf : r.job.data.fail <;> simpa [afterCoro, evPut, evStart, hf] using this
+  · intro a r b _ _ _ _
+    apply settle_fifo
+    intro hm; have := h hm
+    cases hf : r.job.data.fail <;> simpa [afterCoro, evPut, evStart, hf] using this
+  · intro a r b _ _ _
+    apply settle_fifo
+    intro hm; have := h hm
+    simpa [evPut, evStart] using this
+
+theorem run_fifo (c : Cfg) (ops : List Op) : Fifo c (run c ops) := by
+  apply run_induction c (Fifo c)
+  · intro _; rfl
+  · exact settle_fifo c
+  · exact fire_fifo c
+  · intro s t h; exact h
+  · intro s x h _ hm; have := h hm; simp [accept, evPut, evStart, this]
+  · intro s h hm
+    have hne : c.mode ≠ Mode.start := by rw [hm]; simp
+    unfold doStop
+    split
+    · exact h hm
+    · split
+      · exact h hm
+      · have := h hm; simp [hne, accept, evPut, evStart, this]
+
+
+/-! ### cancel mode: whatever is cancelled (run or queued item) has a newer accepted put before it -/
+
+def evCancel : Ev → Option Job
+  | .canc j => some j
+  | .cancelled j => some j
+  | _ => none
+
+/-- every cancellation in the log is preceded (in time) by the arrival of a newer put -/
+def CancOK (log : List (Nat × Ev)) : Prop :=
+  ∀ t e j, (t, e) ∈ log → evCancel e = some j →
+    ∃ k t', j.seq < k.seq ∧ t' ≤ t ∧ (t', Ev.put k) ∈ log
+
+theorem cancOK_cons {log : List (Nat × Ev)} {t : Nat} {e : Ev} (h : CancOK log)
+    (hnew : ∀ j, evCancel e = some j → ∃ k t', j.seq < k.seq ∧ t' ≤ t ∧ (t', Ev.put k) ∈ log) :
+    CancOK ((t, e) :: log) := by
+  intro t1 e1 j hmem hj
+  cases hmem with
+  | head =>
+    obtain ⟨k, t', h1, h2, h3⟩ := hnew j hj
+    exact ⟨k, t', h1, h2, List.mem_cons_of_mem _ h3⟩
+  | tail _ hmem =>
+    obtain ⟨k, t', h1, h2, h3⟩ := h t1 e1 j hmem hj
+    exact ⟨k, t', h1, h2, List.mem_cons_of_mem _ h3⟩
+
+theorem cancOK_cons_other {log : List (Nat × Ev)} {t : Nat} {e : Ev} (h : CancOK log)
+    (he : evCancel e = none) : CancOK ((t, e) :: log) :=
+  cancOK_cons h (fun j hj => by rw [he] at hj; cases hj)
+
+/-- the queue holds accepted puts in arrival order, all newer than the active runs -/
+def QInv (s : State) : Prop :=
+  (∀ k ∈ s.queue, ∃ t', t' ≤ s.now ∧ (t', Ev.put k) ∈ s.log) ∧
+  s.queue.Pairwise (fun a b => a.seq < b.seq) ∧
+  (∀ r ∈ s.runs, ∀ k ∈ s.queue, r.job.seq < k.seq) ∧
+  (∀ k ∈ s.queue, k.seq < s.nacc) ∧ (∀ r ∈ s.runs, r.job.seq < s.nacc)
+
+def CancInv (s : State) : Prop :=
+  QInv s ∧ (∀ j, s.sdPending = some j → j.seq < s.nacc) ∧ CancOK s.log
+
+theorem discards_cancOK (s : State) (j : Job) (q : List Job)
+    (hput : ∀ k ∈ j :: q, ∃ t', t' ≤ s.now ∧ (t', Ev.put k) ∈ s.log)
+    (hpw : (j :: q).Pairwise (fun a b => a.seq < b.seq)) (hc : CancOK s.log) :
+    CancOK (discards s j q).log := by
+  induction q generalizing s j with
+  | nil => exact hc
+  | cons k q ih =>
+    simp only [discards]
+    apply ih
+    · intro k' hk'
+      obtain ⟨t', h1, h2⟩ := hput k' (List.mem_cons_of_mem _ hk')
+      exact ⟨t', h1, List.mem_cons_of_mem _ h2⟩
+    · exact (List.pairwise_cons.mp hpw).2
+    · apply cancOK_cons hc
+      intro j' hj'
+      simp [evCancel] at hj'; subst hj'
+      obtain ⟨t', h1, h2⟩ := hput k (by simp)
+      exact ⟨k, t', (List.pairwise_cons.mp hpw).1 k (by simp), h1, h2⟩
+
+theorem startAll_cancOK (s : State) (q : List Job) (h : CancOK s.log) : CancOK (startAll s q).log := by
+  induction q generalizing s with
+  | nil => exact h
+  | cons j q ih =>
+    apply ih
+    simp only [startRun_log]
+    exact cancOK_cons_other (cancOK_cons_other h rfl) rfl
+
+theorem startStopData_cancInv (s : State) (hq : s.queue = []) (hn : ∀ r ∈ s.runs, r.job.seq < s.nacc)
+    (hsd : ∀ j, s.sdPending = some j → j.seq < s.nacc) (hc : CancOK s.log) :
+    CancInv (startStopData s) := by
+  unfold startStopData
+  split
+  · next j hj =>
+    split
+    · refine ⟨⟨by simp [hq], by simp [hq], by simp [hq], by simp [hq], ?_⟩, by simp, ?_⟩
+      · intro r hr; simp at hr
+        rcases hr with hr | hr
+        · exact hn r hr
+        · rw [hr]; exact hsd j hj
+      · simp only [startRun_log]
+        exact cancOK_cons_other (cancOK_cons_other hc rfl) rfl
+    · exact ⟨⟨by simp [hq], by simp [hq], by simp [hq], by simp [hq], hn⟩, hsd, hc⟩
+  · exact ⟨⟨by simp [hq], by simp [hq], by simp [hq], by simp [hq], hn⟩, hsd, hc⟩
+
+
+theorem qInv_mono {s s' : State} (hq : s'.queue = s.queue)
+    (hr : ∀ r' ∈ s'.runs, ∃ r ∈ s.runs, r'.job = r.job) (hn : s.nacc ≤ s'.nacc) (hnow : s.now ≤ s'.now)
+    (hlog : ∀ e ∈ s.log, e ∈ s'.log) (h : QInv s) : QInv s' := by
+  obtain ⟨h1, h2, h3, h4, h5⟩ := h
+  refine ⟨?_, by rw [hq]; exact h2, ?_, ?_, ?_⟩
+  · intro k hk; rw [hq] at hk
+    obtain ⟨t', ht, hm⟩ := h1 k hk
+    exact ⟨t', by omega, hlog _ hm⟩
+  · intro r' hr' k hk; rw [hq] at hk
+    obtain ⟨r, hrm, hj⟩ := hr r' hr'
+    rw [hj]; exact h3 r hrm k hk
+  · intro k hk; rw [hq] at hk; have := h4 k hk; omega
+  · intro r' hr'
+    obtain ⟨r, hrm, hj⟩ := hr r' hr'
+    rw [hj]; have := h5 r hrm; omega
+
+theorem lastJob_mem (j : Job) (q : List Job) : lastJob j q ∈ j :: q := by
+  induction q generalizing j with
+  | nil => simp [lastJob]
+  | cons k q ih => simp only [lastJob]; exact List.mem_cons_of_mem _ (ih k)
+
+theorem discards_log_mem (s : State) (j : Job) (q : List Job) : ∀ e ∈ s.log, e ∈ (discards s j q).log := by
+  induction q generalizing s j with
+  | nil => intro e h; exact h
+  | cons k q ih => intro e h; exact ih _ _ e (List.mem_cons_of_mem _ h)
+
+theorem settle_cancInv (c : Cfg) (s : State) (h : CancInv s) : CancInv (settle c s) := by
+  obtain ⟨hQ, hsd, hc⟩ := h
+  have ⟨h1, h2, h3, h4, h5⟩ := hQ
+  apply settle_cases
+  · exact ⟨hQ, hsd, hc⟩
+  · intro _ j q hr hq
+    rw [hq] at h1 h2 h4
+    refine ⟨⟨?_, ?_, ?_, ?_, ?_⟩, hsd, ?_⟩
+    · intro k hk
+      obtain ⟨t', ht, hm⟩ := h1 k (List.mem_cons_of_mem _ hk)
+      exact ⟨t', ht, by simp [hm]⟩
+    · exact (List.pairwise_cons.mp h2).2
+    · intro r hrm k hk
+      simp [hr] at hrm; rw [hrm]
+      exact (List.pairwise_cons.mp h2).1 k hk
+    · intro k hk; exact h4 k (List.mem_cons_of_mem _ hk)
+    · intro r hrm; simp [hr] at hrm; rw [hrm]; exact h4 j (by simp)
+    · simp only [startRun_log]
+      exact cancOK_cons_other (cancOK_cons_other hc rfl) rfl
+  · intro _ j q hr hq
+    rw [hq] at h1 h2 h4
+    refine ⟨⟨by simp, by simp, by simp, by simp, ?_⟩, by simpa using hsd, ?_⟩
+    · intro r hrm; simp [hr] at hrm; rw [hrm]
+      simpa using h4 _ (lastJob_mem j q)
+    · simp only [startRun_log]
+      refine cancOK_cons_other (cancOK_cons_other ?_ rfl) rfl
+      exact discards_cancOK _ j q h1 h2 hc
+  · intro _ j q r rest hq hr hcoro
+    refine ⟨?_, hsd, ?_⟩
+    · refine qInv_mono (s := s) (s' := cancelCur c s r rest) (by simp [cancelCur]) ?_
+        (by simp [cancelCur]) (by simp [cancelCur]) ?_ hQ
+      · intro r' hr'
+        simp [cancelCur] at hr'
+        rcases hr' with hr' | hr'
+        · exact ⟨r, by simp [hr], by rw [hr']⟩
+        · exact ⟨r', by simp [hr, hr'], rfl⟩
+      · intro e he; simp [cancelCur, he]
+    · have hjq : j ∈ s.queue := by simp [hq]
+      obtain ⟨t', ht, hm⟩ := h1 j hjq
+      have hlt : r.job.seq < j.seq := h3 r (by simp [hr]) j hjq
+      simp only [cancelCur, emit_log]
+      apply cancOK_cons (cancOK_cons hc _)
+      · intro j' hj'; simp [evCancel] at hj'; subst hj'
+        exact ⟨j, t', hlt, ht, List.mem_cons_of_mem _ hm⟩
+      · intro j' hj'; simp [evCancel] at hj'; subst hj'
+        exact ⟨j, t', hlt, ht, hm⟩
+  · intro _
+    apply startStopData_cancInv
+    · simp
+    · intro r hrm
+      simp [startAll_runs] at hrm
+      rcases hrm with hrm | ⟨k, hk, hrk⟩
+      · simpa using h5 r hrm
+      · rw [← hrk]; simpa using h4 k hk
+    · simpa using hsd
+    · exact startAll_cancOK _ _ hc
+
+
+theorem afterCoro_cancOK (s : State) (t : Nat) (r : Run) (h : CancOK s.log) : CancOK (afterCoro s t r).log := by
+  simp only [afterCoro, emit_log]
+  refine cancOK_cons_other (cancOK_cons_other h rfl) ?_
+  cases r.job.data.fail <;> rfl
+
+theorem fire_cancInv (c : Cfg) (s : State) (t : Nat) (h : CancInv s) : CancInv (fire c s t) := by
+  obtain ⟨hQ, hsd, hc⟩ := h
+  apply fire_cases
+  · intro _; exact ⟨hQ, hsd, hc⟩
+  · intro a r b hrs _ _ _
+    refine ⟨?_, by simpa [afterCoro] using hsd, by simpa using afterCoro_cancOK s t r hc⟩
+    refine qInv_mono (s := s) (by simp [afterCoro]) ?_ (by simp [afterCoro]) (by simp [afterCoro]; omega) ?_ hQ
+    · intro r' hr'
+      simp at hr'
+      rcases hr' with hr' | hr' | hr'
+      · exact ⟨r', by simp [hrs, hr'], rfl⟩
+      · exact ⟨r, by simp [hrs], by rw [hr']⟩
+      · exact ⟨r', by simp [hrs, hr'], rfl⟩
+    · intro e he; simp [afterCoro, he]
+  · intro a r b hrs _ _ _
+    apply settle_cancInv
+    refine ⟨?_, by simpa [afterCoro] using hsd, ?_⟩
+    · refine qInv_mono (s := s) (by simp [afterCoro]) ?_ (by simp [afterCoro]) (by simp [afterCoro]; omega) ?_ hQ
+      · intro r' hr'
+        simp at hr'
+        rcases hr' with hr' | hr'
+        · exact ⟨r', by simp [hrs, hr'], rfl⟩
+        · exact ⟨r', by simp [hrs, hr'], rfl⟩
+      · intro e he; simp [afterCoro, he]
+    · simp only [countDown_log]
+      exact cancOK_cons_other (by simpa using afterCoro_cancOK s t r hc) rfl
+  · intro a r b hrs _ _
+    apply settle_cancInv
+    refine ⟨?_, by simpa using hsd, ?_⟩
+    · refine qInv_mono (s := s) (by simp) ?_ (by simp) (by simp; omega) ?_ hQ
+      · intro r' hr'
+        simp at hr'
+        rcases hr' with hr' | hr'
+        · exact ⟨r', by simp [hrs, hr'], rfl⟩
+        · exact ⟨r', by simp [hrs, hr'], rfl⟩
+      · intro e he; simp [he]
+    · simp only [countDown_log]
+      exact cancOK_cons_other hc rfl
+
+theorem accept_cancInv (s : State) (x : Item) (h : CancInv s) : CancInv (accept s x) := by
+  obtain ⟨⟨h1, h2, h3, h4, h5⟩, hsd, hc⟩ := h
+  refine ⟨⟨?_, ?_, ?_, ?_, ?_⟩, ?_, ?_⟩
+  · intro k hk
+    simp [accept] at hk
+    rcases hk with hk | hk
+    · obtain ⟨t', ht, hm⟩ := h1 k hk
+      exact ⟨t', by simpa [accept] using ht, by simp [accept, hm]⟩
+    · exact ⟨s.now, by simp [accept], by simp [accept, hk]⟩
+  · simp only [accept, emit_queue, List.pairwise_append]
+    refine ⟨h2, by simp, ?_⟩
+    intro a ha b hb; simp at hb; rw [hb]; exact h4 a ha
+  · intro r hr k hk
+    simp [accept] at hr hk
+    rcases hk with hk | hk
+    · exact h3 r hr k hk
+    · rw [hk]; exact h5 r hr
+  · intro k hk
+    simp [accept] at hk ⊢
+    rcases hk with hk | hk
+    · have := h4 k hk; omega
+    · rw [hk]; simp
+  · intro r hr; simp [accept] at hr ⊢; have := h5 r hr; omega
+  · intro j hj; simp [accept] at hj ⊢; have := hsd j hj; omega
+  · simp only [accept, emit_log]; exact cancOK_cons_other hc rfl
+
+theorem doStop_cancInv (c : Cfg) (s : State) (h : CancInv s) : CancInv (doStop c s) := by
+  unfold doStop
+  split
+  · exact h
+  · split
+    · exact h
+    · next d _ =>
+      split
+      · obtain ⟨hQ, hsd, hc⟩ := h
+        refine ⟨?_, by simp, ?_⟩
+        · exact qInv_mono (s := s) (by simp) (fun r' hr' => ⟨r', by simpa using hr', rfl⟩) (by simp) (by simp)
+            (fun e he => by simp [he]) hQ
+        · simp only [emit_log]; exact cancOK_cons_other hc rfl
+      · exact accept_cancInv s d h
+
+theorem run_cancInv (c : Cfg) (ops : List Op) : CancInv (run c ops) := by
+  apply run_induction c CancInv
+  · exact ⟨⟨by simp, by simp, by simp, by simp, by simp⟩, by simp, by intro t e j h; simp at h⟩
+  · exact settle_cancInv c
+  · exact fire_cancInv c
+  · intro s t ⟨hQ, hsd, hc⟩
+    exact ⟨qInv_mono (s := s) rfl (fun r' hr' => ⟨r', hr', rfl⟩) (Nat.le_refl _) (Nat.le_max_left _ _)
+      (fun e he => he) hQ, hsd, hc⟩
+  · intro s x h _; exact accept_cancInv s x h
+  · exact doStop_cancInv c
+
 end Edzed.OutputAsync
